@@ -30,8 +30,9 @@ def run(ctx):
                 ctx.tlc("fs", "PkgHash", cfg, cases_path=cases, timeout_s=1500, workers=workers,
                         simulate="num=%d" % sim[0], depth=sim[1] + 1, seed=ctx.seed)
             else:
-                ctx.tlc("fs", "PkgHash", cfg, cases_path=cases, timeout_s=2400, workers=workers,
-                        coverage=(ctx.tier == "thorough" and cfg == "PkgHash_quick.cfg"))
+                # (-coverage 1 was read once by hand, see design.d/C36.md: its output pushes TLC's verdict line
+                # out of the window engine/vlib/tlc.py keeps)
+                ctx.tlc("fs", "PkgHash", cfg, cases_path=cases, timeout_s=2400, workers=workers)
     h = ctx.build_harness("fsh")
     env = {}
     for k in ("VERIF_CORRUPT", "VERIF_REPO"):
